@@ -488,6 +488,8 @@ impl Terminal for UnixTerminal {
                     }
                 }
             };
+            #[cfg(feature = "verif-hooks")]
+            verif_c17::rec(|| verif_c17::Rec::Interest(verif_c17::tty_interest(&self.poll, &self.tty)));
 
             // process pending output
             if tty.is_writable() {
